@@ -45,10 +45,11 @@ fn params() -> BoxedStrategy<EncParams> {
             prop::bool::weighted(0.8),
             any::<bool>(),
             prop::bool::weighted(0.25),
+            prop::bool::weighted(0.3),
         ),
     )
         .prop_map(
-            |((big_endian, compress, version, chrom_block, rtree_block), (items_per_slot, placement, pad, nonleaf_last, zooms, count_u32, end_magic, zoom_count_prefix, no_summary))| EncParams {
+            |((big_endian, compress, version, chrom_block, rtree_block), (items_per_slot, placement, pad, nonleaf_last, zooms, count_u32, end_magic, zoom_count_prefix, no_summary, ragged))| EncParams {
                 big_endian,
                 compress,
                 version,
@@ -63,6 +64,7 @@ fn params() -> BoxedStrategy<EncParams> {
                 end_magic,
                 zoom_count_prefix,
                 no_summary,
+                ragged,
             },
         )
         .boxed()
@@ -157,7 +159,7 @@ impl Prop for C10 {
     const ID: &'static str = "C10";
     fn rule() -> String {
         "files emitted by an independent encoder (std + miniz_oxide, no bigtools code) over {little, big endian} x {zlib, raw} x bigWig sections of type 1, 2 and 3 mixed per file x chromosome-tree block sizes (1..3 level B+ trees, ids in key order or permuted) \
-         x R-tree {fan-out 2..8, depth 1..4, node placement: level order, reverse, leaves first, shuffled, padding between nodes, an inner node last in the file} x version 1..4 (v1: no total summary; v2..4: with, or without = totalSummaryOffset 0) x with/without zoom levels x 4-byte (UCSC) or 8-byte section count; \
+         x R-tree {fan-out 2..8, depth 1..4, node placement: level order, reverse, leaves first, shuffled, padding between nodes, an inner node last in the file, leaves at different depths} x version 1..4 (v1: no total summary; v2..4: with, or without = totalSummaryOffset 0) x with/without zoom levels x 4-byte (UCSC) or 8-byte section count; \
          bigBed likewise with overlapping entries. Each file is first accepted by the independent decoder (encoder self-check). Oracle = the encoded content: open (typed and generic), chromosome table as a set with sizes, summary and item count, \
          full-span and boundary range queries (C03/C04 oracles), per-base arrays, zoom queries (every intersecting record returned, none wholly outside), plain and cached readers. \
          non-trivial = big-endian OR a type-2/3 section OR a multi-level chromosome tree; distinct = distinct case JSON"
@@ -219,6 +221,7 @@ impl Prop for C10 {
                     end_magic: true,
                     zoom_count_prefix: false,
                     no_summary: false,
+                    ragged: false,
                 },
             });
         }
@@ -264,6 +267,7 @@ impl Prop for C10 {
         obs.label(if p.compress { "zlib" } else { "raw" });
         obs.label(&format!("version={}", p.version));
         obs.label_if(p.version >= 2 && p.no_summary, "v2+-without-total-summary");
+        obs.label_if(p.ragged, "ragged-rtree-requested");
         obs.label(&format!("placement={:?}", p.placement).split('(').next().unwrap().to_string());
         obs.label_if(p.nonleaf_last, "main-index-last-inner-node-last");
         obs.label_if(p.count_u32, "count-4-bytes");
